@@ -219,3 +219,23 @@ func (g *GCM) SealZeroPrefixedAAD(nonce, pt []byte, zeros int, tail []byte, tagS
 	}
 	return append(ct, t[:tagSize]...)
 }
+
+// J0ZeroPrefixed is the pre-counter block for the nonce 0^zeros || tail (zeros a multiple of 16, total
+// length != 12) without touching the zero bytes: zero blocks leave the zero GHASH state at zero, only
+// the length block knows about them.
+func (g *GCM) J0ZeroPrefixed(zeros uint64, tail []byte) [16]byte {
+	if zeros%16 != 0 || zeros+uint64(len(tail)) == 12 {
+		panic("ref: J0ZeroPrefixed")
+	}
+	y := g.ghash(FE{}, tail)
+	y = y.Xor(lenBlock(0, zeros+uint64(len(tail)))).Mul(g.H)
+	var j [16]byte
+	copy(j[:], y.Bytes())
+	return j
+}
+
+// SealJ0 is Seal with the pre-counter block given.
+func (g *GCM) SealJ0(j0 [16]byte, pt, aad []byte, tagSize int) []byte {
+	ct := g.ctr(j0, pt)
+	return append(ct, g.tag(j0, aad, ct, tagSize)...)
+}
